@@ -353,4 +353,3 @@ func replay(c *run.Ctx, cs *Case) {
 		c.Inconclusive("unknown replay kind " + cs.Kind)
 	}
 }
-
